@@ -199,7 +199,7 @@ def run_kani(ov, harnesses, tag, jobs=None, harness_timeout=900, total_timeout=N
     if os.path.exists(jpath):
         os.remove(jpath)
     cmd = ["cargo", "kani", "--lib", "-Z", "function-contracts", "-Z", "stubbing", "-Z", "unstable-options",
-           "--target-dir", KANI_TARGET, "--exact", "-j", str(jobs), "--output-format", "terse",
+           "--target-dir", KANI_TARGET, "--exact", "-j", str(jobs), "--output-format", os.environ.get("VERIF_KANI_FORMAT", "terse"),
            "--harness-timeout", str(int(harness_timeout)), "--export-json", jpath]
     if solver:
         cmd += ["--solver", solver]
